@@ -3,7 +3,7 @@ import itertools
 import math
 import multiprocessing as mp
 
-from harness import futures_impl as fi
+from harness import common, futures_impl as fi
 
 PROPERTY = 'C20'
 LEAN_PROPS = 'PlumpyModel.Props.C20'
@@ -299,7 +299,7 @@ def gen_cases(ctx):
 def run_impl(case):
     try:
         return fi.run_case(case['groups'])
-    except Exception as e:  # noqa
+    except BaseException as e:  # noqa  (also asyncio.CancelledError, a BaseException: it must not take the worker down)
         return ['crash:' + type(e).__name__ + ':' + str(e)[:200]]
 
 
@@ -558,8 +558,10 @@ def run(ctx):
         if isinstance(c, dict) and 'groups' in c:
             cases.append(dict(fam=c.get('fam', 'random'), groups=[(t, list(g)) for t, g in c['groups']],
                               **{k: v for k, v in c.get('meta', {}).items() if k not in ('fam',)}))
-    with mp.Pool(ctx.workers) as pool:
-        impl = pool.map(run_impl, cases, chunksize=64)
+    # fail-fast probe: a tree on which runs crash or block (every blocked run costs a timeout) is reported from a sample
+    cases = common.probe_first(ctx, cases, run_impl, lambda out: bool(out) and str(out[0]).startswith('crash:'), n_probe=400, timeout=300)
+    impl = common.robust_map(run_impl, cases, ctx.workers, chunksize=64)
+    with mp.Pool(1) as pool:
         corpus = pool.apply(fi.corpus_f20)
     lines = [fi.model_line(c['groups']) for c in cases]
     model = None
